@@ -1,4 +1,5 @@
 import FedjaxVerif.Model.Experiment
+import FedjaxVerif.Model.FedAvg
 
 /-!
 # C09 — an interrupted experiment resumes to the uninterrupted result
@@ -646,6 +647,58 @@ theorem C09_resume_eq_uninterrupted (alg : Alg σ) (cfg : Cfg) (cs : List Nat) :
   intro e he
   rw [ht e he, ht0 e he]
   exact ⟨rfl, rfl⟩
+
+
+/-! ## composition with the round model of C01 and the sampler purity of C13
+
+`run_federated_experiment` is instantiated with federated averaging and a round-indexed sampler.
+C13 shows that the sampler's cohort is a function `cohortOf` of the round number alone; C01 models the
+round.  The experiment of C09 then runs the algorithm `F s r = FedAvg.round … s (cohortOf r)`, and
+resuming after any crash schedule returns exactly the `R`-round FedAvg fold over the cohorts of
+rounds `1 … R` — the same state an uninterrupted run computes. -/
+
+section
+open FedjaxVerif.FedAvg
+
+variable {β σc σs ι : Type} [DecidableEq ι]
+
+/-- federated averaging driven by a round-indexed sampler, as an experiment algorithm -/
+def fedAvgAlg (grad : P → β → Key → P) (copt : FedAvg.Optimizer σc) (sopt : FedAvg.Optimizer σs)
+    (s0 : ServerState σs) (cohortOf : Nat → List (FedAvg.Client ι β)) : Alg (ServerState σs) :=
+  { init := s0, F := fun s r => FedAvg.round grad copt sopt s (cohortOf r) }
+
+theorem S_fedAvg (grad : P → β → Key → P) (copt : FedAvg.Optimizer σc) (sopt : FedAvg.Optimizer σs)
+    (s0 : ServerState σs) (cohortOf : Nat → List (FedAvg.Client ι β)) (R : Nat) :
+    S (fedAvgAlg grad copt sopt s0 cohortOf) R
+      = FedAvg.rounds grad copt sopt s0 ((List.range R).map fun i => cohortOf (i + 1)) := by
+  induction R with
+  | zero => rfl
+  | succ R ih =>
+    rw [List.range_succ, List.map_append]
+    simp only [S, List.map_cons, List.map_nil]
+    rw [ih]
+    unfold FedAvg.rounds
+    rw [List.foldl_append]
+    rfl
+
+/-- **End-to-end resume.** For federated averaging with any gradient function, optimizers and
+round-indexed cohorts, any experiment configuration and any crash schedule: the re-run completes and
+its final server state is the `numRounds`-round FedAvg fold over the cohorts of rounds
+`1 … numRounds` (parameters *and* server optimizer state), and the final evaluation is made with the
+last round number. -/
+theorem C09_resume_fedavg (grad : P → β → Key → P) (copt : FedAvg.Optimizer σc)
+    (sopt : FedAvg.Optimizer σs) (s0 : ServerState σs) (cohortOf : Nat → List (FedAvg.Client ι β))
+    (cfg : Cfg) (cs : List Nat) :
+    ∃ res, runAll (fedAvgAlg grad copt sopt s0 cohortOf) cfg
+        (crashes (fedAvgAlg grad copt sopt s0 cohortOf) cfg cs []) = some res ∧
+      res.state = FedAvg.rounds grad copt sopt s0
+        ((List.range cfg.numRounds).map fun i => cohortOf (i + 1)) ∧
+      res.evalRound = cfg.numRounds := by
+  obtain ⟨res, h1, hs, hr, _, _⟩ :=
+    C09_resume (fedAvgAlg grad copt sopt s0 cohortOf) cfg cs [] (inv_nil _ _)
+  exact ⟨res, h1, by rw [hs, S_fedAvg], hr⟩
+
+end
 
 /-! ## retention -/
 
